@@ -76,6 +76,39 @@ func withWarmup(c *Ctx, real *Real, argv []string) ([]Op, []string) {
 	return []Op{{Kind: "parse", Args: w}, {Kind: "parse", Args: argv}}, w
 }
 
+// withWarmupBelow: like withWarmup, but half of the earlier calls walk down the judged call's own command
+// path and then FURTHER, into a command below its end: the links (and required options) of those deeper
+// commands must mean nothing to the judged call
+func withWarmupBelow(c *Ctx, real *Real, chain []*flags.Command, argv []string) ([]Op, []string) {
+	r := c.Rng
+	if r.Intn(2) == 0 {
+		return withWarmup(c, real, argv)
+	}
+	var path []string
+	for _, cmd := range chain[1:] {
+		path = append(path, cmd.Name)
+	}
+	cur := chain[len(chain)-1]
+	deeper := 0
+	for {
+		subs := cur.Commands()
+		if len(subs) == 0 || len(cur.Args()) > 0 || (deeper > 0 && r.Intn(3) == 0) {
+			break
+		}
+		s := subs[r.Intn(len(subs))]
+		if !uniqueWord(subs, s.Name) || !typableWord(s.Name) {
+			break
+		}
+		path = append(path, s.Name)
+		cur = s
+		deeper++
+	}
+	if deeper == 0 {
+		return withWarmup(c, real, argv)
+	}
+	return []Op{{Kind: "parse", Args: path}, {Kind: "parse", Args: argv}}, path
+}
+
 func typableWord(w string) bool {
 	return w != "" && !strings.HasPrefix(w, "-") && !strings.Contains(w, "%")
 }
